@@ -229,6 +229,8 @@ class Ctx:
         ref = self._recv if self._recv is not None else self._st.env.get("self")
         if ref is None:
             raise EngineError("no receiver in this context")
+        if not isinstance(ref.s, S.Obj):
+            return ref          # `self` modelled as a plain value (e.g. a list subclass as its list)
         return ObjView(self._e, self._st, ref)
 
     def has(self, n):
